@@ -16,6 +16,15 @@ CLAIMED = {
  "C04": ("proof", "E2", "normals: unit, pointing away from the left generator (from the property statement), face centroid stays in the face plane (inductive invariant over collect/finalize), sign conventions of signed area/volume, walls of the box",
          "A-REAL; closure/divergence identities not claimed (need C01)",
          TECH + " — E2 contracts on build's bisector slice, cuboid, VoronoiFaceIntegral::{init,collect,finalize}, FaceIntegrator::init"),
+ "C03": ("proof", "E2", "storage/label half: every unshifted face between two constructed cells is emitted by exactly one side (the lower index), shifted faces by each side, boundary faces always; labels left/right/shift passed through unchanged; the periodic iterator reports None iff the query shift is zero, else the negated shift",
+         "geometric half (equal area/centroid, opposite normal from both sides) needs C01 and is not claimed; finalize linking is under C12",
+         TECH + " — E2 contracts on sliced predicates/closures of the real source + SMT"),
+ "C07": ("proof", "E2", "face bookkeeping under every mask: count(i,j) is 1 iff some side is selected, the selected side is the left cell, a cell is constructed iff no mask or its bit is set (both routes); bitwise equality with the full build argued by a syntactic frame obligation",
+         "2-safety part (bitwise same volume/centroid) is a frame argument, not a proved obligation",
+         TECH + " — E2 contracts on should_construct_face and the construct-or-default condition + SMT"),
+ "C13": ("proof", "E2", "symmetric-variant sentence: the plane is skipped iff it has an unshifted, lower-index, active right neighbour; the two function bodies are token-identical apart from that statement; kept_sym(plane) == should_construct_face(plane) for an active cell",
+         "route equality (integrator vs direct, bitwise) and 'built-in integrals reproduce stored values' are not claimed",
+         TECH + " — E2 contract on the sliced match arm + structural comparison"),
 }
 NA = {
 }
